@@ -212,6 +212,14 @@ K("cosine_range", ["C11", "C20"], DSF,
   "Cosine built_distance lies in [0,1] for finite norms and non-NaN dot, and is 0 when the product of norms is <= epsilon",
   "all f32 norms/dot (dot_product uninterpreted)", site="Cosine::built_distance", timeout=300)
 
+_SEARCH_BOUNDS = "forests: 1 tree from {bucket; split(bucket,bucket); split(item,bucket)} + (split(bucket,item) with a second single-bucket tree); thorough adds the other depth-1 shapes and one depth-2 shape, <= 3 (thorough 4) items over a 16-id universe; count 0..=6; candidate filter absent or any 16-bit set; per-item distances = uninterpreted f32 function of the id (any values incl. NaN/inf/ties); per-split margins arbitrary f32"
+MIRSYM("exact_search", ["C02"],
+       "nns_by_leaf with an unlimited budget returns exactly min(count, #items in the filter) items, distinct, stored, inside the filter, nearest first by (distance, id), each with normalized_distance(built_distance), and no closer stored item is missing",
+       _SEARCH_BOUNDS + "; search_k = usize::MAX", _lazy("e2_search"), site="Reader::nns_by_leaf", unlimited=True)
+MIRSYM("bounded_search_wellformed", ["C03", "C20"],
+       "nns_by_leaf with any budget search_k in 1..=8 returns at most count results, all distinct, stored, inside the candidate filter, ordered nearest first, each carrying normalized_distance(built_distance); never panics or errs on a valid forest",
+       _SEARCH_BOUNDS, _lazy("e2_search"), site="Reader::nns_by_leaf", unlimited=False)
+
 PROPS = {}
 
 KANI_NOTE = ("Trusted: Kani/CBMC and rustc MIR semantics; the environment models in /verif/models (heed store, "
@@ -348,6 +356,16 @@ P("C04", "A stored vector is routed to itself by every tree (self-lookup works)"
   bounds={"dimension": "2 (f32) / 64 bits (quantised)"},
   outside_claim=["the end-to-end search_k = 1 observation (needs a build)", "numerical meaning of margin"],
   assumptions=["dot(u,v) = dot(v,u)"])
+P("C02", "Unlimited-budget search returns the exact nearest neighbours",
+  "symbolic execution of the rustc MIR of Reader::nns_by_leaf (whole function) with z3 over a bounded forest family, symbolic distances as an uninterpreted function",
+  "Bounded symbolic execution: every path of nns_by_leaf over every forest of the family and every distance/margin/filter/count valuation is enumerated; the exactness oracle is decided by z3 on each.",
+  level_note="Trusted: rustc MIR, z3, contracts of std containers (BinaryHeap::pop = greatest by Ord, sort_unstable+dedup = set), the bit-set bitmap model, distances as an uninterpreted function of the item id (numeric accuracy is C11's subject); forest completeness is C01's claim.",
+  stubs_and_models=["E2 model table + search models (lib/e2_search.py)"],
+  functions_encoded=["Reader::nns_by_leaf", "nns_by_leaf::{closure#0}", "nns_by_leaf::{closure#1}", "Distance::pq_distance", "NodeId::unwrap_item", "Key::new", "Key::item", "NodeId::tree"],
+  bounds={"forest": "1-2 trees, depth <= 1 (thorough 2), <= 3 (4) items", "count": "0..=6"},
+  outside_claim=["numeric accuracy of distances (C11)", "forests beyond the family", "by_item = by_vector header equality"],
+  assumptions=["Inv(F, I)"])
+claim("C02")
 claim("C04")
 claim("C13")
 claim("C01")
